@@ -23,7 +23,7 @@ TInit == l = 1 /\ memo = [k \in {} |-> ""]
 MaxReport == 40          \* mismatch lines printed per event (the count is always printed)
 
 Report(S) ==  \* S: set of mismatch records
-  LET tagged == {[mm EXCEPT !.known = KnownAs(OpenFindings, mm)] : mm \in S}
+  LET tagged == {[mm EXCEPT !.known = KnownAs(OpenFindings, mm)] @@ [evidx |-> l] : mm \in S}
       viol   == {mm \in tagged : mm.known = ""}
       known  == tagged \ viol
       firstN(X) == LET q == SetToSeq(X) IN SubSeq(q, 1, Min2(Len(q), MaxReport))
